@@ -4,6 +4,9 @@ import PP.Model.Piecewise.Evaluator
 import PP.Model.Piecewise.Merge
 import PP.Model.Linear.Loops
 import PP.Model.Spline.Loops
-/-! The generated loop files (`PP/Model/**/Loops.lean`, `PP/Model/Piecewise/{Evaluator,Merge}.lean`).  Kept out of `PP/Model.lean` because they declare
+import PP.Model.Poly.Arbitrary
+import PP.Model.Piecewise.Arbitrary
+/-! The generated loop files (`PP/Model/**/Loops.lean`, `PP/Model/Piecewise/{Evaluator,Merge}.lean`) and the
+generated `Arbitrary` code (`PP/Model/{Poly,Piecewise}/Arbitrary.lean`, against `PP/Core/Arb.lean`).  Kept out of `PP/Model.lean` because they declare
 instances for `PolyN` (`inst_Evaluate_PolyN`, …) that would compete with the hand instances
 `Hand.inst_Evaluate_PolyN`, … in modules importing both (`PP.Props.Tie` proves them equal). -/
